@@ -178,6 +178,41 @@ func TestC17_ExhaustiveTokens(t *testing.T) {
 	t.Logf("tokens checked in this shard: %d", total)
 }
 
+// TestC17_EveryByte: every one of the 256 byte values substituted for, and inserted before,
+// every character of a set of valid quantities / byte strings (the field decoders see raw
+// bytes: the JSON library in use does not reject control characters inside strings).
+func TestC17_EveryByte(t *testing.T) {
+	ev := evid.For("C17", "EveryByte")
+	si, sn := shard()
+	seeds := []string{"0", "1a", "ff", "AbC", "0100", "1234567", "deadbeef", "fFfFfFfFfFfFfFfF", "00000000000000001"}
+	n := 0
+	for k, in := range seeds {
+		if k%sn != si {
+			continue
+		}
+		for pos := 0; pos <= len(in); pos++ {
+			for c := 0; c < 256; c++ {
+				var toks []string
+				if pos < len(in) {
+					toks = append(toks, "\"0x"+in[:pos]+string([]byte{byte(c)})+in[pos+1:]+"\"")
+				}
+				toks = append(toks, "\"0x"+in[:pos]+string([]byte{byte(c)})+in[pos:]+"\"")
+				for _, tok := range toks {
+					viol, nt := checkToken(tok)
+					n++
+					ev.Case(nt && !isHex(byte(c)), tok, fmt.Sprintf("hexdigit=%v", isHex(byte(c))))
+					if viol != "" {
+						t.Fatalf("VERIF-VIOLATION property=C17 %s", viol)
+					}
+				}
+			}
+		}
+		ev.Sample(4, map[string]any{"seed": "0x" + in, "positions": len(in) + 1, "bytes": 256})
+	}
+	ev.Set("exhaustive_byte_substitution", true)
+	t.Logf("tokens checked in this shard: %d", n)
+}
+
 func genHexCase() *rapid.Generator[string] {
 	return rapid.Custom(func(t *rapid.T) string {
 		s := []byte(rapid.StringMatching(`[0-9a-fA-F]{0,40}`).Draw(t, "hex"))
